@@ -148,7 +148,7 @@ class Check:
             'rule': self.rule,
             'samples': self.samples[:8] or ['(no case explored)'],
             'tlc_runs': self.tlc_runs,
-            'drift': self.drift[:20],
+            'drift': self.drift[:200],
             'drift_count': len(self.drift),
             'known_findings_seen': self.known_seen,
             'notes': self.notes,
